@@ -140,6 +140,9 @@ def run(repo='/repo', tier='quick'):
     res.assumptions += ['user callbacks do not mutate the shared configuration and keep their own state per connection',
                         "zlib's and the LZMA SDK's state is per stream object, as documented",
                         'indirect calls are resolved by slot: the set of functions ever stored into that record field (user hooks are leaves)']
+    from . import mirror
+    mirror.run(load(repo), res, 'C19.f', [('htp_config_register_request_%s' % h, 'htp_config_register_response_%s' % h, None) for h in ('body_data', 'complete', 'header_data', 'headers', 'line', 'start', 'trailer', 'trailer_data')]
+                               + [('htp_tx_register_request_body_data', 'htp_tx_register_response_body_data', None), ('htp_config_set_request_decompression', 'htp_config_set_response_decompression', None)])
     return res
 
 
